@@ -657,6 +657,11 @@ def handwritten():
     P.append((("match", lit("k")), ("optional", (("loop", None, (("match", DG), ("yield", "Y"))),))))
     P.append((("match", lit("k")), ("optional", (("loop", None, (("match", DG), ("yield", "Y"), ("optional", (("match", lit(";")), ("break", None))))),)), ("match", lit("z")), ("yield", "Z")))
     P.append((("loop", None, (("match", AB), ("if", ((("bin", "==", ("var", "n"), ("num", 0)), (("set", "n", ("num", 1)), ("hook", "h"))),), (("yield", "Y"), ("set", "n", ("num", 0)))))),))
+    # foreach over bodies with control flow of their own: the each-actions run once per byte the body reads, never on the non-consuming moves
+    P.append((("foreach", (("loop", None, (("case", False, ((None, (("re", RX_ATOMS["[0-3]"]),), ()), (None, (lit(";"),), (("break", None),)))),)),), (n1,)), ("match", lit("d")), ("hook", "h")))
+    P.append((("foreach", (("try", (("match", lit("ab")),), None, (("match", lit("c")),)),), (n1,)), ("match", lit("d")), ("hook", "h")))
+    P.append((("foreach", (("match", AB), ("if", ((("bin", "==", ("var", "m"), ("num", 0)), (("match", lit("c")),)),), (("match", lit("d")),))), (n1,)), ("match", lit("d")), ("hook", "h")))
+    P.append((("foreach", (("match", AB), ("optional", (("match", lit("c")),)), ("loop", None, (("match", lit("a")), ("optional", (("match", lit(";")), ("break", None)))))), (n1, ("hook", "g"))), ("match", lit("d")), ("hook", "h")))
     # greedy cases: priorities between action-only, empty and consuming bodies that tie on the same last byte
     m1, m2, m3 = ("set", "m", ("num", 1)), ("set", "m", ("num", 2)), ("set", "m", ("num", 3))
     P.append((("case", True, ((2, (lit("ab"),), (m1,)), (1, (re_("a", "[ab]"),), (m2, ("match", lit("c")))))), ("hook", "h"), ("match", lit("d"))))
